@@ -180,6 +180,39 @@ static int worst_group(struct isal_hufftables *ht, vrng *r, const int *lits, int
 	return bad;
 }
 
+/* every histogram collector variant over run-heavy and ordinary data of every length 0..N, the input ending directly before (or starting directly
+ * after) an inaccessible page: the match finder's look-ahead and its preloads after a long match must stay inside [in, in+len) */
+static long st_hist_guard;
+static void hist_guard_sweep(void)
+{
+	int maxlen = vopt.thorough ? 3000 : 1100;
+	for (int c = 0; c < NCOLL; c++) { if (v_isa_ok(collectors[c].isa) != 1) continue;
+		for (int kind = 0; kind < 7; kind++) for (int len = 0; len <= maxlen; len++) {
+			long idx = 900000000L + ((long) c * 8 + kind) * 10000 + len; if (!v_mine(idx)) continue;
+			if (kind >= 5 && len % 5 && !vopt.thorough) continue;
+			vrng r; vr_seed(&r, vopt.seed, 71, idx);
+			int place = (len & 1) && kind != 0 ? G_START : G_END; if (vrn(&r, 4) == 0) place = G_END;
+			uint8_t *in = gs_place(s_in, (size_t) len, place, 0);
+			switch (kind) { case 0: memset(in, 0, len); break; case 1: memset(in, 0xff, len); break;
+				case 2: for (int i = 0; i < len; i++) in[i] = (uint8_t) "abc"[i % 3]; break;
+				case 3: { int p = 1 + vrn(&r, 300); for (int i = 0; i < len; i++) in[i] = (uint8_t) (i < p ? vr32(&r) : in[i - p]); } break;     /* period p: one very long match */
+				case 4: { int lit = vrn(&r, 40); for (int i = 0; i < len; i++) in[i] = i < lit ? (uint8_t) vr32(&r) : 0x55; } break;                  /* literals, then a run to the end */
+				case 5: for (int i = 0; i < len; i++) in[i] = (uint8_t) "the quick brown fox jumps over the lazy dog\n"[vrn(&r, 44)]; break;
+				default: vr_fill(&r, in, len); break; }
+			struct isal_huff_histogram *hg = (struct isal_huff_histogram *) gs_place(s_hg, (sizeof *hg + 15) & ~15ul, vrn(&r, 2) ? G_END : G_START, 0); memset(hg, 0, sizeof *hg);
+			v_setcase(idx, "%s(in, %d) data kind %d, input %s an inaccessible page", collectors[c].name, len, kind, place == G_END ? "ends directly before" : "starts directly after");
+			if (V_TRY(30)) { collectors[c].fn(in, len, hg); V_END; } else { fault_key(collectors[c].name); gs_reset(s_in); gs_reset(s_hg); continue; }
+			st_hist_guard++;
+			{ long d = gs_check(s_hg, 4096); if (d != GS_OK) { v_viol("oob-write:histogram", "canary next to the histogram damaged at %+ld", d); gs_repaint_all(s_hg); } d = gs_check(s_in, 4096); if (d != GS_OK) { v_viol("oob-write:histogram-input", "canary next to the input damaged at %+ld", d); gs_repaint_all(s_in); } }
+			uint64_t tot = 0; for (int i = 0; i < 256; i++) tot += hg->lit_len_histogram[i]; uint64_t ml = 0; for (int i = 257; i < 286; i++) ml += hg->lit_len_histogram[i];
+			if (tot + 3 * ml > (uint64_t) len || (len && tot + 258 * ml < (uint64_t) len)) { char key[160]; snprintf(key, sizeof key, "histogram-does-not-cover-input:%s", collectors[c].name); v_viol(key, "%llu literals and %llu matches cannot account for %d bytes", (unsigned long long) tot, (unsigned long long) ml, len); }
+			gs_reset(s_in); gs_reset(s_hg);
+		}
+		v_count("histogram_guard_calls", collectors[c].name, 1);
+	}
+	v_stat("histogram_collector_calls_at_page_ends", st_hist_guard);
+}
+
 static void table_case(long idx, vrng *r)
 {
 	struct isal_hufftables *ht = (struct isal_hufftables *) gs_place(s_ht, (sizeof *ht + 15) & ~15ul, vrn(r, 2) ? G_END : G_START, 0);
@@ -238,6 +271,9 @@ static void table_case(long idx, vrng *r)
 		size_t n = vrn(r, 30000); int kind = vrn(r, 3); if (kind == 0) vr_fill(r, data, n); else for (size_t i = 0; i < n; i++) data[i] = (uint8_t) (kind == 1 ? "etaoin shrdlu\n"[vrn(r, 14)] : (i * 7) >> (i & 3));
 		if (roundtrip(ht, data, n, r, "other-data")) goto out;
 		{ int all[256]; for (int i = 0; i < 256; i++) all[i] = i; for (int rep = 0; rep < 3; rep++) if (worst_group(ht, r, all, 256, "worst-group")) goto out; }
+		{ /* a long constant run first (one-shot compression has a shortcut for it that leaves the bit buffer unaligned in front of the stored table header), then other data */
+		  size_t run = 4096 + vrn(r, 5000), m = vrn(r, 3000); memset(data, vrn(r, 2) ? 0 : 0xff, run); for (size_t i = 0; i < m; i++) data[run + i] = (uint8_t) (vrn(r, 3) ? "lorem ipsum dolor\n"[vrn(r, 18)] : vr32(r));
+		  if (roundtrip(ht, data, run + m, r, "constant-run-first")) goto out; }
 		if (vrn(r, 2)) install_rules(ht, r);
 		if (vrn(r, 4) == 0) switch_at_flush(ht, r);
 	}
@@ -254,6 +290,7 @@ int main(int argc, char **argv)
 	s_ht = gs_new("hufftables", sizeof(struct isal_hufftables) + 8192); s_hg = gs_new("histogram", sizeof(struct isal_huff_histogram) + 8192); s_ctx = gs_new("isal_zstream", sizeof(struct isal_zstream) + 8192); s_in = gs_new("next_in", 70000); s_out = gs_new("next_out", 200000);
 	data = malloc(70000); tstream = malloc(400000); expect = malloc(400000); dec = malloc(400000); cout = malloc(200000); dec2 = malloc(80000);
 	long per = (long) ((vopt.thorough ? 12000 : 260) * vopt.scale);
+	hist_guard_sweep();
 	/* the level-0 encoder variants: base / 01 / 02 / 04 are chosen by the CPU level */
 	static const char *lv[] = { "base", "sse", "avx", "avx2", "avx512+g2" }; int nl = V_NDISPATCHED > 0 ? 5 : 1;
 	for (int l = 0; l < nl; l++) {
